@@ -32,7 +32,7 @@ M0 == [calls |-> <<>>,        \* k -> call record (function with a growing domai
        stalled |-> {},        \* transport writes that are blocked because the peer stopped draining
        notices |-> {},        \* wire ids named by cancellation notices handed to the transport
        notifOk |-> {},        \* refs of notifications the transport accepted
-       listens |-> {}, listenResp |-> {},
+       listens |-> {}, cancelIds |-> {}, listenResp |-> {},
        badB |-> {}, badE |-> {},   \* calls with parameters that cannot be encoded: begun / returned
        wfailed |-> {},            \* our calls whose transport write failed (broken or rejected)        \* wire ids of subscriptions/listen calls (parked by the SDK until cancelled; answered then)
        respBegun |-> {},      \* request tags whose response has been handed to the transport
@@ -120,7 +120,8 @@ OnDeliver(e) ==
                         !.idn = IF e.kind \in {"call", "init"} THEN Put(m.idn, e.id, [Idn(e.id) EXCEPT !.deliv = @ + 1]) ELSE @]
     [] e.kind = "cancel" ->
          m' = [m EXCEPT !.reqs = [r \in DOMAIN m.reqs |-> IF m.reqs[r].id = e.id /\ m.reqs[r].kind = "call"
-                                                          THEN [m.reqs[r] EXCEPT !.cancelSent = TRUE] ELSE m.reqs[r]]]
+                                                          THEN [m.reqs[r] EXCEPT !.cancelSent = TRUE] ELSE m.reqs[r]],
+                        !.cancelIds = @ \cup {e.id}]
     [] OTHER -> m' = [m EXCEPT !.listens = @ \cup {e.id}]     \* "listen": judged through Close only
 
 OnHStart(e) ==
@@ -136,7 +137,9 @@ OnHStart(e) ==
 
 OnHCtxDone(e) ==
   LET q == Req(e.r) IN
-  /\ Check(l, "C04.OnlyMatchingCancelled", q.cancelSent \/ m.rdDown \/ m.broken \/ m.trClosed)
+  \* (a request that re-used the id of a request still in flight when the peer sent it shares that id's
+  \* cancellation notices: the peer named "exactly that request" ambiguously itself)
+  /\ Check(l, "C04.OnlyMatchingCancelled", q.cancelSent \/ (q.dup /\ q.id \in m.cancelIds) \/ m.rdDown \/ m.broken \/ m.trClosed)
   /\ m' = [m EXCEPT !.reqs = Put(m.reqs, e.r, [q EXCEPT !.ctxdone = TRUE])]
 
 OnHEnd(e) == m' = [m EXCEPT !.reqs = Put(m.reqs, e.r, [Req(e.r) EXCEPT !.ended = TRUE])]
